@@ -34,6 +34,7 @@ var pureFrameFuncs = map[string]bool{
 	"(*sync.Mutex).Lock": true, "(*sync.Mutex).Unlock": true, "(*sync.RWMutex).Lock": true, "(*sync.RWMutex).Unlock": true,
 	"(*sync.RWMutex).RLock": true, "(*sync.RWMutex).RUnlock": true, "(*sync.Mutex).TryLock": true,
 	"(*sync.WaitGroup).Add": true, "(*sync.WaitGroup).Done": true, "(*sync.WaitGroup).Wait": true,
+	"bytes.NewReader": true, "bytes.NewBuffer": true, "(*bytes.Reader).Len": true,
 	"bytes.Equal": true, "bytes.Compare": true, "bytes.Index": true, "bytes.IndexByte": true, "bytes.Contains": true, "bytes.HasPrefix": true, "bytes.HasSuffix": true, "bytes.EqualFold": true,
 	"sort.SearchInts": true, "sort.Search": true,
 	"io/ioutil.ReadFile": true, "io/ioutil.WriteFile": true, "io/ioutil.ReadDir": true,
@@ -133,6 +134,28 @@ func init() {
 			}
 			return scalar(f64, sx("fp.sqrt", "RNE", v.S)), true
 		},
+	}
+	// binary.Read(r, order, &x): writes only through the pointer boxed in `data`
+	intrinsics["encoding/binary.Read"] = func(t *FnTrans, x *ssa.Call, a []Val, st *HeapState, reach string) (Val, bool) {
+		c := x.Common()
+		if len(c.Args) != 3 {
+			return Val{}, false
+		}
+		mi, ok := c.Args[2].(*ssa.MakeInterface)
+		if !ok {
+			return Val{}, false
+		}
+		pt, ok := mi.X.Type().Underlying().(*types.Pointer)
+		if !ok || t.mode.scalarSort(pt.Elem()) == "" {
+			return Val{}, false
+		}
+		p := t.val(mi.X)
+		l, ok := t.locOf(p, mi.X.Type())
+		if !ok {
+			return Val{}, false
+		}
+		t.store(st, l, t.havocVal(pt.Elem(), "binread"))
+		return t.havocVal(x.Type(), "ret.binaryRead"), true
 	}
 	for _, e := range []string{"littleEndian", "bigEndian"} {
 		for _, w := range []int{16, 32, 64} {
